@@ -15,7 +15,7 @@ def strategy(tier):
 
 
 def check(prog, ctx):
-    env = engine.run_program(prog)
+    env = oracles.first(prog)
     viol = oracles.lifo(env)
     r, exp = oracles.reference(prog, env)
     viol += oracles.compare_with_reference(env, r, exp, "C07.read")
